@@ -212,6 +212,10 @@ func (w *c06W) battery(idx int64, desc func() interface{}, in *c06Input, d *docu
 		for ti := 0; ti < nt; ti++ {
 			b.tableStages(ti)
 		}
+		// every ordered triple of structural calls on the first two tables, each on a freshly re-opened document
+		for ti := 0; ti < nt && ti < 2; ti++ {
+			b.tableSequences(ti)
+		}
 	}
 
 	if light {
@@ -718,4 +722,104 @@ func (b *c06Bat) tableStages(ti int) {
 	})
 	on(st, "ClearTable", true, func(d *document.Document, t *document.Table) { t.ClearTable() })
 	b.resave(fmt.Sprintf("after-deletes(table %d)", ti), b.d)
+}
+
+// tableSequences runs every ordered triple of seven structural table calls (column insert/delete, horizontal
+// and vertical merge away from the first row/column, unmerge, row insert/delete) on table number ti, each triple
+// on a freshly re-opened document; the document is re-saved when the triple left a table structure not seen
+// before for this input.
+func (b *c06Bat) tableSequences(ti int) {
+	type sop struct {
+		name string
+		f    func(t *document.Table)
+	}
+	fill := func(n int, s string) []string {
+		if n < 0 || n > 64 {
+			n = 1
+		}
+		out := make([]string, n)
+		for i := range out {
+			out[i] = s
+		}
+		return out
+	}
+	ops := []sop{
+		{"InsertColumn(0)", func(t *document.Table) { _ = t.InsertColumn(0, fill(t.GetRowCount(), "c"), 900) }},
+		{"DeleteColumn(last)", func(t *document.Table) { _ = t.DeleteColumn(t.GetColumnCount() - 1) }},
+		{"MergeCellsHorizontal(last row, 0..1)", func(t *document.Table) { _ = t.MergeCellsHorizontal(t.GetRowCount()-1, 0, 1) }},
+		{"MergeCellsVertical(0..1, last column)", func(t *document.Table) { _ = t.MergeCellsVertical(0, 1, t.GetColumnCount()-1) }},
+		{"UnmergeCells(last row, 0)", func(t *document.Table) { _ = t.UnmergeCells(t.GetRowCount()-1, 0) }},
+		{"InsertRow(1)", func(t *document.Table) { _ = t.InsertRow(1, fill(t.GetColumnCount(), "r")) }},
+		{"DeleteRow(0)", func(t *document.Table) { _ = t.DeleteRow(0) }},
+	}
+	shape := func(t *document.Table) string {
+		s := ""
+		if t.Grid != nil {
+			s = fmt.Sprintf("g%d", len(t.Grid.Cols))
+		}
+		for _, r := range t.Rows {
+			s += "|"
+			for _, c := range r.Cells {
+				s += fmt.Sprintf("%d", len(c.Paragraphs))
+				if c.Properties != nil {
+					if c.Properties.GridSpan != nil {
+						s += "s" + c.Properties.GridSpan.Val
+					}
+					if c.Properties.VMerge != nil {
+						s += "v" + c.Properties.VMerge.Val
+					}
+				}
+				s += ","
+			}
+		}
+		return s
+	}
+	seen := map[string]bool{}
+	n := len(ops)
+	// triples on tables with at least two rows and two cells in the first row, pairs on smaller ones
+	total, length := n*n, 2
+	if p := c06Guard(func() {
+		if ts := c06Tables(b.d); ti < len(ts) && ts[ti] != nil && len(ts[ti].Rows) >= 2 && len(ts[ti].Rows[0].Cells) >= 2 {
+			total, length = n*n*n, 3
+		}
+	}); p != nil {
+		return
+	}
+	for i := 0; i < total && !b.failed; i++ {
+		seq := []int{i / n % n, i % n}
+		if length == 3 {
+			seq = []int{i / (n * n), i / n % n, i % n}
+		}
+		b.reopen()
+		if b.failed {
+			return
+		}
+		if ts := c06Tables(b.d); ti >= len(ts) || ts[ti] == nil {
+			return
+		}
+		name := ""
+		for k, o := range seq {
+			if k > 0 {
+				name += " ; "
+			}
+			name += ops[o].name
+			op := ops[o]
+			b.call(fmt.Sprintf("table-sequence(table %d)", ti), "Table: "+name, true, func(d *document.Document) {
+				if ts := c06Tables(d); ti < len(ts) && ts[ti] != nil {
+					op.f(ts[ti])
+				}
+			})
+		}
+		key := ""
+		if p := c06Guard(func() {
+			if ts := c06Tables(b.d); ti < len(ts) && ts[ti] != nil {
+				key = shape(ts[ti])
+			}
+		}); p != nil || key == "" || seen[key] {
+			continue
+		}
+		seen[key] = true
+		b.resave(fmt.Sprintf("after-table-sequence(table %d)", ti), b.d)
+	}
+	b.w.c.P.Add("table_sequences_run", int64(total))
 }
